@@ -19,6 +19,9 @@ Definition LB (c : N) : bool := memN c py_linebreaks.
 Definition WS (c : N) : bool := memN c py_whitespace.
 Definition IWS (c : N) : bool := memN c py_int_whitespace.
 Definition DZ : list N := py_decimal_zeros.
+(* where the training-file reader ends a line: every code point of LB when the
+   source opens the file through codecs, LF (and CR) with the builtin open *)
+Definition LBR (c : N) : bool := memN c reader_linebreaks.
 
 Definition failing_io {X} (f : X -> bool) (l : list X) : list nat :=
   map fst (filter (fun kx => negb (f (snd kx))) (combine (seq 0 (length l)) l)).
@@ -226,7 +229,7 @@ Record read_case := {
 }.
 
 Definition cfg_of (c : read_case) : rcfg :=
-  {| r_lb := LB; r_ws := WS; r_iws := IWS; r_dz := DZ;
+  {| r_lb := LBR; r_ws := WS; r_iws := IWS; r_dz := DZ;
      r_rej := check_valid_rejected; r_rej_empty := check_valid_rejects_empty;
      r_dec := tbl_dec (rc_dec c); r_encb := encb_of (rc_unenc c); r_prefix := rc_prefix c |}.
 
